@@ -260,6 +260,24 @@ pub fn c03(a: &Analysis) -> Vec<Violation> {
             ));
         }
     }
+    // the daemon keeps serving: a Put between entities whose links carry no fault at all completes
+    for (pi, p) in a.rec.sc.puts.iter().enumerate() {
+        if !p.src_name.starts_with("canary") || !a.rec.puts[pi].issued || p.unack {
+            continue;
+        }
+        let touched = a.rec.sc.script.iter().any(|e| match e {
+            Entry::Fault { src, dst, .. } | Entry::Blackout { src, dst, .. } | Entry::Inject { src, dst, .. } => (*src == p.src && *dst == p.dst) || (*src == p.dst && *dst == p.src),
+            Entry::Stall { ent, .. } | Entry::Crash { ent, .. } | Entry::FsFault { ent, .. } => *ent == p.src || *ent == p.dst,
+            Entry::ClockJump { .. } => true,
+            _ => false,
+        });
+        if touched {
+            continue;
+        }
+        for x in c02_put(a, pi, "C03") {
+            out.push(vv("C03", "other_transaction_not_served", x.clause.to_string(), format!("while the cut-off transaction ran through its timers: {}", x.detail)));
+        }
+    }
     let has_jump = a.rec.sc.script.iter().any(|e| matches!(e, Entry::ClockJump { .. } | Entry::Stall { .. }));
     for t in a.txns.values() {
         let fsize = t.put.and_then(|p| a.rec.sc.puts[p].file.as_ref().map(|f| f.size)).unwrap_or(0);
